@@ -58,7 +58,10 @@ pub fn real<F: FnOnce() -> pdf::error::Result<Vec<u8>>>(f: F) -> String {
 }
 
 fn class(s: &str) -> &str {
-    s.split(' ').next().unwrap_or("")
+    match s.split(' ').next().unwrap_or("") {
+        c @ ("ok" | "err" | "panic" | "oof" | "bad-request" | "none" | "0" | "1") => c,
+        _ => "value",
+    }
 }
 
 #[derive(Clone, Debug, PartialEq)]
@@ -811,6 +814,7 @@ fn pair_stream(driver: &Driver, seed: u64, n: u64) -> (Stream, Stream) {
     let mut st = Stream::new("c05.pair", true);
     let mut so = Stream::new("c05.pair.malformed", false);
     let mut wellformed = vec![];
+    let mut shapes: Vec<String> = vec![];
     let mut b = Batch::new();
     for case in 0..n {
         let mut rng = Rng::derive(seed, "c05.pair", case);
@@ -821,7 +825,7 @@ fn pair_stream(driver: &Driver, seed: u64, n: u64) -> (Stream, Stream) {
         let names: Vec<Option<&str>> = (0..nlen).map(|_| if nshape == "arr" && rng.chance(1, 12) { None } else { Some(*rng.pick(&["fl", "lzw", "fl", "lzw", "hex", "a85", "rl"])) }).collect();
         let ptoks: Vec<String> = (0..plen).map(|i| format!("{}", 2 + i * 3 + rng.usize(3))).collect();
         let parms: Vec<Option<&str>> = ptoks.iter().map(|t| if pshape == "arr" && rng.chance(1, 3) { None } else { Some(t.as_str()) }).collect();
-        st.count(&format!("filter={} parms={}", nshape, pshape));
+        shapes.push(format!("filter={} parms={}", nshape, pshape));
         let mut d = Dictionary::new();
         d.insert("Length", Primitive::Integer(0));
         if nshape != "null" || rng.chance(1, 2) { d.insert("Filter", pval_prim_names(nshape, &names)); }
@@ -846,8 +850,9 @@ fn pair_stream(driver: &Driver, seed: u64, n: u64) -> (Stream, Stream) {
     }
     // the model pairs every filter; the implementation drops the parameters of filters that take none
     let resp = driver.ask(&b.reqs);
-    for ((((rq, m), i), nt), wf) in b.reqs.iter().zip(resp.iter()).zip(b.imps.iter()).zip(b.nontrivial.iter()).zip(wellformed.iter()) {
+    for (((((rq, m), i), nt), wf), shape) in b.reqs.iter().zip(resp.iter()).zip(b.imps.iter()).zip(b.nontrivial.iter()).zip(wellformed.iter()).zip(shapes.iter()) {
         let st = if *wf { &mut st } else { &mut so };
+        st.count(shape);
         let canon = if let Some(rest) = m.strip_prefix("ok ") {
             if rest == "-" { m.clone() } else {
                 format!("ok {}", rest.split(',').map(|pair| { let (n, p) = pair.split_once('=').unwrap(); if n == "fl" || n == "lzw" { pair.to_string() } else { let _ = p; format!("{}=*", n) } }).collect::<Vec<_>>().join(","))
